@@ -13,3 +13,38 @@ Definition src2_issue_instant_ok (in_a_while : pyval -> pyval) (a_while_ago : py
    (py_bind (py_bind (py_bind (a_while_ago (PInt (1)%Z)) (fun a_4 => (py_bind (p2_neg (p2_attr v_self "timeslack")) (fun a_5 => (shift_time a_4 a_5))))) (fun a_6 => (timetuple a_6))) (fun v_lower =>
    (py_bind (py_bind (p2_attr (p2_attr v_self "response") "issue_instant") (fun a_7 => (parse a_7))) (fun v_issued_at =>
    (py_bind v_lower (fun a_8 => (py_bind v_issued_at (fun a_9 => (p2_and (p2_lt a_8 a_9) (py_bind v_upper (fun a_10 => (p2_lt a_9 a_10)))))))))))))).
+
+(* saml2/response.py:StatusResponse._verify (float constant rewritten by harness/c05.py), lines 403-423 *)
+Definition src2_verify (issue_instant_ok : pyval -> pyval) (status_ok : pyval -> pyval) (float_ : pyval -> pyval) (two : pyval) (v_self : pyval) : pyval :=
+  let v__ver := PErr in
+  let v_valid := PErr in
+  (match p2_branch (p2_and (p2_attr v_self "request_id") (p2_and (p2_attr v_self "in_response_to") (p2_ne (p2_attr v_self "in_response_to") (p2_attr v_self "request_id")))) with
+   | BTrue => PNone
+   | BFalse => (match p2_branch (p2_ne (p2_attr (p2_attr v_self "response") "version") (PStr "2.0")) with
+   | BTrue => (py_bind (py_bind (p2_attr (p2_attr v_self "response") "version") (fun a_5 => (float_ a_5))) (fun v__ver =>
+   (match p2_branch (p2_lt v__ver two) with
+   | BTrue => (PExc "RequestVersionTooLow")
+   | BFalse => (PExc "RequestVersionTooHigh")
+   | BExc n_6 => (PExc n_6)
+   | BErr => PErr
+   end)))
+   | BFalse => (let k_3 := fun (_ : unit) =>
+    (py_bind (p2_and (issue_instant_ok v_self) (status_ok v_self)) (fun v_valid =>
+    v_valid)) in
+   (match p2_branch (p2_attr v_self "asynchop") with
+   | BTrue => (match p2_branch (p2_and (p2_attr (p2_attr v_self "response") "destination") (p2_not_in (p2_attr (p2_attr v_self "response") "destination") (p2_attr v_self "return_addrs"))) with
+   | BTrue => PNone
+   | BFalse => (k_3 tt)
+   | BExc n_2 => (PExc n_2)
+   | BErr => PErr
+   end)
+   | BFalse => (k_3 tt)
+   | BExc n_3 => (PExc n_3)
+   | BErr => PErr
+   end))
+   | BExc n_7 => (PExc n_7)
+   | BErr => PErr
+   end)
+   | BExc n_9 => (PExc n_9)
+   | BErr => PErr
+   end).
